@@ -112,6 +112,7 @@ type world struct {
 	encP     []byte // dag-json encoding of the bound struct's representation
 	profile  int
 	byt      datamodel.Node
+	sbyt     datamodel.Node
 	backend  string
 	cleanup  func()
 }
@@ -234,6 +235,7 @@ func buildWorld(t *sim.Tape) *world {
 	w.lp.Codec = 0x71
 	w.cfg = &traversal.Config{LinkSystem: w.lsys, LinkVisitOnlyOnce: t.Bool("cfg.visitonce")}
 	w.byt = basicnode.NewBytes([]byte("shared plain bytes node, long enough for subsets"))
+	w.sbyt = basicnode.NewBytesFromReader(bytes.NewReader([]byte("shared stream-backed bytes node: every reader sees all of it, from the start")))
 	if w.profile == 0 {
 		w.cfg.Ctx = ctxBackground
 		w.cfg.LinkTargetNodePrototypeChooser = func(datamodel.Link, linking.LinkContext) (datamodel.NodePrototype, error) {
@@ -254,11 +256,11 @@ func avHash(n datamodel.Node) string {
 	return fmt.Sprintf("%x", v.Hash())
 }
 
-const nOps = 33
+const nOps = 34
 
 var opNames = []string{"read-basicnode", "read-bindnode-type", "read-bindnode-repr", "deepequal", "copy", "encode-dagcbor", "encode-dagjson", "encode-bindnode-repr",
 	"computelink", "load", "loadraw", "walkadv", "walkmatching", "get-path", "build-from-shared-prototype", "wrap-with-shared-type", "wrap-inferred", "registry-lookup",
-	"print", "read-gendemo", "build-gendemo", "compile-selector", "typesystem-read", "prototype-inferred", "encode-to-failing-writer", "encode-after-failed-encode", "decode-dagcbor", "decode-dagjson-into-shared-prototype", "focused-transform-of-shared-node", "walk-transform-of-shared-node", "loadplusraw", "fill", "walk-stream-bytes-subset"}
+	"print", "read-gendemo", "build-gendemo", "compile-selector", "typesystem-read", "prototype-inferred", "encode-to-failing-writer", "encode-after-failed-encode", "decode-dagcbor", "decode-dagjson-into-shared-prototype", "focused-transform-of-shared-node", "walk-transform-of-shared-node", "loadplusraw", "fill", "walk-stream-bytes-subset", "read-stream-backed-bytes"}
 
 // doOp performs one read-only operation on the shared world and returns a digest of its result.
 func (w *world) doOp(op, arg int) string {
@@ -463,6 +465,27 @@ func (w *world) doOp(op, arg int) string {
 			return nil
 		})
 		return fmt.Sprint(out, err)
+	case 33:
+		// the shared stream-backed bytes node: read whole, and in pieces through a reader of our own
+		b, err := w.sbyt.AsBytes()
+		out := fmt.Sprintf("%x %v", sim.HashString(string(b)), err)
+		if lb, ok := w.sbyt.(datamodel.LargeBytesNode); ok {
+			rs, err := lb.AsLargeBytes()
+			if err != nil {
+				return out + " ERR:" + err.Error()
+			}
+			buf := make([]byte, 5+arg)
+			var got []byte
+			for {
+				n, e := rs.Read(buf)
+				got = append(got, buf[:n]...)
+				if e != nil {
+					break
+				}
+			}
+			out += fmt.Sprintf(" %x", sim.HashString(string(got)))
+		}
+		return out
 	case 24, 25:
 		// encode a shared map-bearing node into a writer that fails at its arg-th write, then (25) encode again properly
 		fw := &failingWriter{at: arg}
